@@ -68,7 +68,8 @@ def merge(results):
     m = dict(counters=collections.Counter(), distinct=set(), samples=[], sets=collections.defaultdict(set),
              violations=[], vcount=collections.Counter(), notes=[], tape_events=0, tape_pairs=0,
              tape_breaks=0, boundary_calls=collections.Counter(), boundary_raises=collections.Counter(),
-             reach={}, attached=collections.Counter(), elapsed=0.0, first_breaks=[])
+             reach={}, attached=collections.Counter(), elapsed=0.0, first_breaks=[],
+             contract_evals=collections.Counter(), contract_breaks=collections.Counter())
     for r in results:
         m['counters'].update(r['counters'])
         m['distinct'].update(r['distinct'])
@@ -89,6 +90,9 @@ def merge(results):
         b = mon.get('boundary', {})
         m['boundary_calls'].update(b.get('calls', {}))
         m['boundary_raises'].update(b.get('raises', {}))
+        cst = mon.get('contracts', {})
+        m['contract_evals'].update(cst.get('evaluations', {}))
+        m['contract_breaks'].update(cst.get('breaks', {}))
         for fn, (hit, tot) in mon.get('reach', {}).items():
             old = m['reach'].get(fn, [0, tot])
             m['reach'][fn] = [max(old[0], hit), tot]
@@ -227,6 +231,8 @@ def run_check(prop, tier, seed, nshards=None, replay=None, quiet=False):
                           boundary_raises=dict(m['boundary_raises']),
                           tape_events=m['tape_events'], tape_distinct_kind_width=m['tape_pairs'],
                           tape_invariant_breaks=m['tape_breaks'],
+                          contract_evaluations=dict(m['contract_evals']),
+                          contract_breaks=dict(m['contract_breaks']),
                           anchor_lines_reached=m['reach']),
                       shards=nshards, shards_lost=len(failed),
                       status=status, inconclusive_reasons=reasons,
